@@ -7,8 +7,9 @@ EXPLANATION = (
     'decision in the main regime is a function of the parameters, the key and the bytes from the chunk start to aligned(max) - so from a common '
     'boundary two streams with a common suffix produce the same chunks until the tail zone. SUF checks that consequence end to end on the real '
     'adapter over the source-built cutter for aligned prefix pairs x segmentations. KEY is a bit-exact sat query (two keys, one buffer, '
-    'different cuts) replayed natively; W.native (shared with C10) checks on the real adapter that the boundaries for a key do not depend on which keys the same adapter instance served before. KEY: (
-    'different cuts) replayed natively. L1 (shared with C01) is the padding clause: every file starts at an aligned stream offset whatever fstat reports for the previous file. '
+    'different cuts) replayed natively; W.native (shared with C10) checks on the real adapter that the boundaries for a key do not depend on which '
+    'keys the same adapter instance served before. L1 (shared with C01) is the padding clause: every file starts at an aligned stream offset '
+    'whatever fstat reports for the previous file. '
     'NOT claimed: the re-synchronisation distance "with failure probability below 1e-15" is a statement about the distribution of CLMUL maxima '
     'on random data; an SMT solver does not decide probabilities.'
 )
